@@ -6,9 +6,10 @@ S="$1"; PID="$2"; TIER="${3:-quick}"
 cd /repo || exit 2
 if ! git diff --quiet; then echo "REPO DIRTY, refusing"; exit 2; fi
 cd /repo/sandbox/grist
-PYTHONPATH=/verif/shims /venv/bin/python "$S/demo.py" >/dev/null 2>&1; D0=$?
+DEMO="$S/demo.py"; [ -f "$S/demo_after_fix.py" ] && DEMO="$S/demo_after_fix.py"
+PYTHONPATH=/verif/shims /venv/bin/python "$DEMO" >/dev/null 2>&1; D0=$?
 if ! git -C /repo apply "$S/patch.diff"; then echo "SEED $PID: patch does not apply"; exit 2; fi
-PYTHONPATH=/verif/shims /venv/bin/python "$S/demo.py" >/dev/null 2>&1; D1=$?
+PYTHONPATH=/verif/shims /venv/bin/python "$DEMO" >/dev/null 2>&1; D1=$?
 cd /verif
 T0=$(date +%s)
 ./vcheck "$PID" --tier "$TIER" > /tmp/seedtest.$PID.out 2>&1; RC=$?
